@@ -1,12 +1,600 @@
-//! Family `text`: C06 C07 — text archives.  (stub)
-#![allow(unused)]
+//! Family `text`: C06 (text archive round trip, layout) and C07 (ordered map, escaping, dirty flag).
+//!
+//! Case lines
+//!   c06.* rt <S|U> <L|B> <title> <k:m,k:m,...|~>      build through set_title/set_message, serialize, from_bytes
+//!   c06.* fa <S|U> <L|B> <data> <off:label,...|~>     TextArchive::from_archive on a hand-built BinArchive
+//!   c07.* rtd ... (as rt)                              same run as rt; prints `ok parsed dirty=<0|1>` | `ok unparsed` only
+//!   c07.* new <S|U> <L|B>                              stateful: first line creates the archive
+//!   c07.* set <k> <m> | del <k> | has <k> | get <k> | title <t> | setget <k>
+//! Strings are hex of UTF-8 (`-` = empty), lists are comma separated (`~` = empty list).
+//!
+//! Implementation lines
+//!   rt : `ok stored=<k:v,..> bytes=<hex> parsed title=<hex> entries=<k:v,..> reser=<same|diff|err:Class>`
+//!        (reser: the parsed archive serialised again, compared with `bytes`)
+//!        | `ok stored=.. bytes=<hex> parse-err <Class>` | `err <Class>` (serialize failed) | `panic`
+//!   fa : `ok title=<hex> entries=<k:v,..>` | `err <Class>` | `panic`
+//!   c07: `ok r=<unit|true|false|none|some:<hex>> title=<hex> dirty=<0|1> entries=<k:v:g,..>` with
+//!        v the stored value and g = get_message(k).
 use crate::util::*;
+use mila::*;
 
-pub fn gen(_seed: u64, _tier: &str) -> Vec<String> {
-    Vec::new()
+// ------------------------------------------------------------------------------------------------
+// helpers
+// ------------------------------------------------------------------------------------------------
+
+fn fmt_of(s: &str) -> TextArchiveFormat {
+    match s {
+        "S" => TextArchiveFormat::ShiftJIS,
+        "U" => TextArchiveFormat::Unicode,
+        _ => panic!("format {}", s),
+    }
+}
+fn endian_of(s: &str) -> Endian {
+    match s {
+        "L" => Endian::Little,
+        "B" => Endian::Big,
+        _ => panic!("endian {}", s),
+    }
 }
 
-pub fn run_line(_st: &mut super::State, line: &str) -> String {
-    let id = line.split(' ').next().unwrap_or("?");
-    format!("{} unimplemented", id)
+fn es_class(e: &EncodedStringsError) -> &'static str {
+    match e {
+        EncodedStringsError::UnterminatedString => "Unterminated",
+        EncodedStringsError::EncodingFailed(_, _) => "Encoding",
+        EncodedStringsError::DecodingFailed(_) => "Decoding",
+        _ => "Io",
+    }
+}
+fn ar_class(e: &ArchiveError) -> &'static str {
+    match e {
+        ArchiveError::OutOfBoundsAddress(_, _) => "OutOfBounds",
+        ArchiveError::ArchiveTooSmall => "TooSmall",
+        ArchiveError::UnalignedValue(_, _) => "Unaligned",
+        ArchiveError::EncodingStringsError(e) => es_class(e),
+        ArchiveError::IOError(_) | ArchiveError::EndianAwareIOError(_) => "Io",
+        _ => "Other",
+    }
+}
+fn ta_class(e: &TextArchiveError) -> &'static str {
+    match e {
+        TextArchiveError::ArchiveError(e) => ar_class(e),
+        TextArchiveError::EncodingStringsError(e) => es_class(e),
+        TextArchiveError::IOError(_) => "Io",
+        _ => "Other",
+    }
+}
+
+fn pairs<'a, I: Iterator<Item = (&'a String, &'a String)>>(it: I) -> String {
+    let v: Vec<String> = it.map(|(k, v)| format!("{}:{}", hexs(k), hexs(v))).collect();
+    if v.is_empty() {
+        "~".to_string()
+    } else {
+        v.join(",")
+    }
+}
+
+fn parse_pairs(s: &str) -> Vec<(String, String)> {
+    if s == "~" {
+        return Vec::new();
+    }
+    s.split(',')
+        .map(|p| {
+            let mut it = p.split(':');
+            let a = it.next().unwrap();
+            let b = it.next().unwrap();
+            (a.to_string(), b.to_string())
+        })
+        .collect()
+}
+
+// ------------------------------------------------------------------------------------------------
+// run
+// ------------------------------------------------------------------------------------------------
+
+fn run_rt(f: &[&str]) -> String {
+    let dirty_only = f[1] == "rtd";
+    let (fmt, endian) = (fmt_of(f[2]), endian_of(f[3]));
+    let title = unhexs(f[4]);
+    let entries: Vec<(String, String)> = parse_pairs(f[5]).into_iter().map(|(k, m)| (unhexs(&k), unhexs(&m))).collect();
+    let r = no_panic(|| {
+        let mut t = TextArchive::new(fmt, endian);
+        t.set_title(title.clone());
+        for (k, m) in &entries {
+            t.set_message(k, m);
+        }
+        let stored = pairs(t.get_entries().iter());
+        let bytes = match t.serialize() {
+            Ok(b) => b,
+            Err(_) if dirty_only => return "ok unparsed".to_string(),
+            Err(e) => return format!("err {}", ta_class(&e)),
+        };
+        if dirty_only {
+            return match TextArchive::from_bytes(&bytes, fmt, endian) {
+                Ok(p) => format!("ok parsed dirty={}", p.is_dirty() as u8),
+                Err(_) => "ok unparsed".to_string(),
+            };
+        }
+        match TextArchive::from_bytes(&bytes, fmt, endian) {
+            Ok(p) => format!(
+                "ok stored={} bytes={} parsed title={} entries={} reser={}",
+                stored,
+                hex(&bytes),
+                hexs(p.get_title()),
+                pairs(p.get_entries().iter()),
+                match p.serialize() {
+                    Ok(b2) if b2 == bytes => "same".to_string(),
+                    Ok(_) => "diff".to_string(),
+                    Err(e) => format!("err:{}", ta_class(&e)),
+                }
+            ),
+            Err(e) => format!("ok stored={} bytes={} parse-err {}", stored, hex(&bytes), ta_class(&e)),
+        }
+    });
+    r.unwrap_or_else(|_| "panic".to_string())
+}
+
+fn run_fa(f: &[&str]) -> String {
+    let (fmt, endian) = (fmt_of(f[2]), endian_of(f[3]));
+    let data = unhex(f[4]);
+    let labels: Vec<(usize, String)> = parse_pairs(f[5]).into_iter().map(|(o, l)| (o.parse().unwrap(), unhexs(&l))).collect();
+    let r = no_panic(|| {
+        let mut a = BinArchive::new(endian);
+        a.allocate_at_end(data.len());
+        if !data.is_empty() {
+            if let Err(e) = a.write_bytes(0, &data) {
+                return format!("err {}", ar_class(&e));
+            }
+        }
+        for (o, l) in &labels {
+            if let Err(e) = a.write_label(*o, l) {
+                return format!("err {}", ar_class(&e));
+            }
+        }
+        match TextArchive::from_archive(&a, fmt, endian) {
+            Ok(p) => format!("ok title={} entries={}", hexs(p.get_title()), pairs(p.get_entries().iter())),
+            Err(e) => format!("err {}", ta_class(&e)),
+        }
+    });
+    r.unwrap_or_else(|_| "panic".to_string())
+}
+
+fn state_line(t: &TextArchive, ret: &str) -> String {
+    let v: Vec<String> = t
+        .get_entries()
+        .iter()
+        .map(|(k, v)| format!("{}:{}:{}", hexs(k), hexs(v), t.get_message(k).map(|g| hexs(&g)).unwrap_or("~".to_string())))
+        .collect();
+    format!(
+        "ok r={} title={} dirty={} entries={}",
+        ret,
+        hexs(t.get_title()),
+        t.is_dirty() as u8,
+        if v.is_empty() { "~".to_string() } else { v.join(",") }
+    )
+}
+
+fn run_c07(st: &mut super::State, f: &[&str]) -> String {
+    if f[1] == "new" {
+        st.any = Some(Box::new(TextArchive::new(fmt_of(f[2]), endian_of(f[3]))));
+    }
+    let t: &mut TextArchive = match st.any.as_mut().and_then(|b| b.downcast_mut::<TextArchive>()) {
+        Some(t) => t,
+        None => return "bad-case".to_string(),
+    };
+    let r = no_panic(|| {
+        let ret = match f[1] {
+            "new" => "unit".to_string(),
+            "set" => {
+                t.set_message(&unhexs(f[2]), &unhexs(f[3]));
+                "unit".to_string()
+            }
+            "del" => {
+                t.delete_message(&unhexs(f[2]));
+                "unit".to_string()
+            }
+            "title" => {
+                t.set_title(unhexs(f[2]));
+                "unit".to_string()
+            }
+            "has" => t.has_message(&unhexs(f[2])).to_string(),
+            "get" => match t.get_message(&unhexs(f[2])) {
+                Some(m) => format!("some:{}", hexs(&m)),
+                None => "none".to_string(),
+            },
+            "setget" => {
+                let k = unhexs(f[2]);
+                match t.get_message(&k) {
+                    Some(m) => {
+                        t.set_message(&k, &m);
+                        format!("some:{}", hexs(&m))
+                    }
+                    None => "none".to_string(),
+                }
+            }
+            _ => return "bad-case".to_string(),
+        };
+        state_line(t, &ret)
+    });
+    r.unwrap_or_else(|_| "panic".to_string())
+}
+
+pub fn run_line(st: &mut super::State, line: &str) -> String {
+    let f: Vec<&str> = line.split(' ').collect();
+    let id = f[0];
+    let out = if id.starts_with("c07") && f[1] != "rtd" {
+        run_c07(st, &f)
+    } else {
+        match f[1] {
+            "rt" | "rtd" => run_rt(&f),
+            "fa" => run_fa(&f),
+            _ => "bad-case".to_string(),
+        }
+    };
+    format!("{} {}", id, out)
+}
+
+// ------------------------------------------------------------------------------------------------
+// generators
+// ------------------------------------------------------------------------------------------------
+
+/// A character of the executable Shift-JIS sub-codec (ASCII without NUL, half-width katakana,
+/// hiragana, katakana).
+fn sjis_char(rng: &mut Rng) -> char {
+    let c = match rng.below(10) {
+        0..=4 => rng.range(0x20, 0x7E) as u32,
+        5 => rng.range(0x01, 0x7F) as u32,
+        6 => rng.range(0xFF61, 0xFF9F) as u32,
+        7 => rng.range(0x3041, 0x3093) as u32,
+        _ => rng.range(0x30A1, 0x30F6) as u32,
+    };
+    char::from_u32(c).unwrap()
+}
+fn sjis_string(rng: &mut Rng, len: usize) -> String {
+    (0..len).map(|_| sjis_char(rng)).collect()
+}
+
+const SPECIAL: [u32; 30] = [
+    0xFEFF, 0xFFFE, 0xBBEF, 0x41BF, 0xBFBB, 0xEFBB, 0x0100, 0x0001, 0x00FF, 0x00E9, 0x07FF, 0x0800, 0xD7FF, 0xE000, 0xFFFD, 0xFFFF, 0x10000,
+    0x1F600, 0x10FFFF, 0xFFFFF, 0x100000, 0x2028, 0x5C, 0x6E, 0x0A, 0x0D, 0x7F, 0x80, 0x3042, 0xFF71,
+];
+
+/// Any NUL-free scalar value, biased to boundaries, BOM look-alikes, astral planes, backslashes.
+fn uni_char(rng: &mut Rng) -> char {
+    loop {
+        let c = match rng.below(10) {
+            0..=2 => *rng.pick(&SPECIAL),
+            3..=4 => rng.range(0x20, 0x7E) as u32,
+            5 => rng.range(1, 0x7FF) as u32,
+            6 => rng.range(0x800, 0xFFFF) as u32,
+            7 => rng.range(0x10000, 0x10FFFF) as u32,
+            8 => *rng.pick(&[0x5Cu32, 0x6E, 0x0A]),
+            _ => sjis_char(rng) as u32,
+        };
+        if let Some(ch) = char::from_u32(c) {
+            return ch;
+        }
+    }
+}
+fn uni_string(rng: &mut Rng, len: usize) -> String {
+    (0..len).map(|_| uni_char(rng)).collect()
+}
+
+fn rt_line(n: &mut usize, fmt: &str, endian: &str, title: &str, entries: &[(String, String)]) -> String {
+    let e: Vec<String> = entries.iter().map(|(k, m)| format!("{}:{}", hexs(k), hexs(m))).collect();
+    let l = format!("c06.{:06} rt {} {} {} {}", *n, fmt, endian, hexs(title), if e.is_empty() { "~".to_string() } else { e.join(",") });
+    *n += 1;
+    l
+}
+
+fn distinct_keys(rng: &mut Rng, count: usize) -> Vec<String> {
+    let mut keys: Vec<String> = Vec::new();
+    while keys.len() < count {
+        let k = match rng.below(12) {
+            0 => String::new(),
+            1 => "MID_".to_string() + &sjis_string(rng, 3),
+            _ => {
+                let len = rng.range(1, 6) as usize;
+                sjis_string(rng, len)
+            }
+        };
+        if !keys.contains(&k) {
+            keys.push(k);
+        }
+    }
+    keys
+}
+
+fn gen_c06(rng: &mut Rng, tier: &str, lines: &mut Vec<String>) {
+    let thorough = tier == "thorough";
+    let mut n = 0usize;
+    let combos = [("S", "L"), ("S", "B"), ("U", "L"), ("U", "B")];
+    let s = |x: &str| x.to_string();
+    // --- fixed boundary cases, all four format x endian combinations
+    for (f, e) in combos {
+        lines.push(rt_line(&mut n, f, e, "", &[])); // the empty archive (D16)
+        lines.push(rt_line(&mut n, f, e, "T", &[]));
+        lines.push(rt_line(&mut n, f, e, "", &[(s("k"), s(""))])); // one empty message
+        lines.push(rt_line(&mut n, f, e, "", &[(s(""), s(""))])); // empty key, empty message
+        lines.push(rt_line(&mut n, f, e, "ti", &[(s("a"), s("")), (s("b"), s("")), (s("c"), s("x"))]));
+        // every message length 0..9 (every length mod 4 in both encodings)
+        for len in 0..10usize {
+            let m: String = "abcdefghij"[..len].to_string();
+            lines.push(rt_line(&mut n, f, e, &"tttttttttt"[..(len * 3) % 10], &[(s("k1"), m.clone()), (s("k2"), m)]));
+        }
+        // escapes are stored as newlines; lone backslashes survive
+        lines.push(rt_line(&mut n, f, e, "t", &[(s("e"), s("a\\nb\\\\n\\")), (s("n"), s("x\ny\\"))]));
+        // keys out of lexicographic order (big-endian label table is sorted by name)
+        lines.push(rt_line(&mut n, f, e, "t", &[(s("zz"), s("1")), (s("a"), s("22")), (s("m"), s("333")), (s("B"), s(""))]));
+    }
+    // --- UTF-16 specials: D15 witnesses, astral, boundaries
+    for e in ["L", "B"] {
+        for m in [
+            "\u{FEFF}abc", "\u{FFFE}abc", "\u{BBEF}\u{41BF}abc", "\u{FEFF}", "\u{FFFE}", "\u{FEFF}\u{FEFF}x", "\u{EFBB}\u{BF00}", "a\u{FEFF}",
+            "\u{10000}", "\u{10FFFF}", "\u{1F600}x", "x\u{1F600}", "\u{D7FF}\u{E000}", "\u{FFFF}\u{100}\u{1}", "\u{100}", "é", "\\", "\\\\", "n\\",
+        ] {
+            lines.push(rt_line(&mut n, "U", e, "t", &[(s("k"), m.to_string())]));
+            lines.push(rt_line(&mut n, "U", e, "", &[(s("a"), s("x")), (s("k"), m.to_string()), (s("z"), s("yy"))]));
+        }
+    }
+    // --- encoder error paths (outside the property's domain; correspondence only)
+    for (f, e) in combos {
+        lines.push(rt_line(&mut n, f, e, "é", &[(s("k"), s("m"))]));
+        lines.push(rt_line(&mut n, f, e, "t", &[(s("ké"), s("m"))]));
+        lines.push(rt_line(&mut n, f, e, "t", &[(s("k"), s("mé\u{1F600}"))]));
+        lines.push(rt_line(&mut n, f, e, "t", &[(s("k"), s("a\0b")), (s("l"), s("c"))]));
+        lines.push(rt_line(&mut n, f, e, "t\0u", &[(s("k"), s("ab"))]));
+    }
+    // --- random archives
+    let count = if thorough { 60000 } else { 10000 };
+    for _ in 0..count {
+        let (f, e) = *rng.pick(&combos);
+        let tl = rng.range(0, 9) as usize;
+        let title = if rng.chance(1, 4) { String::new() } else { sjis_string(rng, tl) };
+        let ne = match rng.below(10) {
+            0 => 0,
+            1 => 1,
+            _ => rng.range(1, if thorough { 12 } else { 7 }) as usize,
+        };
+        let keys = distinct_keys(rng, ne);
+        let mut entries = Vec::new();
+        for k in keys {
+            let len = rng.range(0, 9) as usize;
+            let m = if f == "S" { sjis_string(rng, len) } else { uni_string(rng, len) };
+            entries.push((k, m));
+        }
+        lines.push(rt_line(&mut n, f, e, &title, &entries));
+    }
+    // --- from_archive on hand-built bin archives (reader model, not produced by the writer)
+    let count = if thorough { 40000 } else { 6000 };
+    for _ in 0..count {
+        let (f, e) = *rng.pick(&combos);
+        let mut data: Vec<u8> = Vec::new();
+        let mut labels: Vec<(usize, String)> = Vec::new();
+        let pad = |d: &mut Vec<u8>, rng: &mut Rng, exact: bool| {
+            while d.len() % 4 != 0 {
+                d.push(0);
+            }
+            if !exact && rng.chance(1, 10) {
+                d.extend([0u8; 4]);
+            }
+        };
+        if f == "U" {
+            // the title is read with the Shift-JIS decoder: keep its bytes inside the sub-codec
+            // (`SHIFT_JIS.decode` sniffs BOMs, which the shared codec model does not)
+            let l = rng.range(0, 6) as usize;
+            let t = sjis_string(rng, l);
+            data.extend(encoding_sjis(&t));
+            data.push(0);
+            pad(&mut data, rng, false);
+        }
+        let nb = rng.range(0, 5) as usize;
+        let keypool = ["a", "b", "MID_X", "", "ｱ"];
+        for _ in 0..nb {
+            let off = data.len();
+            // labels: usually one, sometimes none / several / duplicates of earlier keys
+            match rng.below(8) {
+                0 => {}
+                1 => {
+                    labels.push((off, rng.pick(&keypool).to_string()));
+                    labels.push((off, rng.pick(&keypool).to_string()));
+                }
+                _ => labels.push((off, rng.pick(&keypool).to_string())),
+            }
+            let len = rng.range(0, 5) as usize;
+            if f == "S" {
+                data.extend(encoding_sjis(&sjis_string(rng, len)));
+                data.push(0);
+            } else {
+                for _ in 0..len {
+                    // code units incl. lone surrogates (DecodingFailed) and units with a zero byte
+                    let u: u16 = match rng.below(12) {
+                        0 => rng.range(0xD800, 0xDBFF) as u16,
+                        1 => rng.range(0xDC00, 0xDFFF) as u16,
+                        2 => rng.range(1, 0xFF) as u16,
+                        3 => (rng.range(1, 0xFF) as u16) << 8,
+                        4 => 0xFEFF,
+                        5 => 0xFFFE,
+                        _ => rng.range(0x20, 0x7E) as u16,
+                    };
+                    if rng.chance(1, 12) {
+                        // a valid pair
+                        data.extend((0xD800u16 + rng.below(0x400) as u16).to_le_bytes());
+                        data.extend((0xDC00u16 + rng.below(0x400) as u16).to_le_bytes());
+                    }
+                    data.extend(u.to_le_bytes());
+                }
+                data.extend([0u8, 0]);
+            }
+            pad(&mut data, rng, false);
+        }
+        // tail perturbations: unterminated string, size not a multiple of 4, stray label
+        match rng.below(10) {
+            0 => data.extend([0x41u8, 0x42, 0x43, 0x44]),
+            1 => data.push(0x41),
+            2 => {
+                data.pop();
+            }
+            3 => {
+                data.extend([0x41u8, 0]);
+            }
+            4 => {
+                data.extend([0u8, 0, 0]);
+            }
+            _ => {}
+        }
+        if rng.chance(1, 8) {
+            labels.push((data.len(), "end".to_string()));
+        }
+        if rng.chance(1, 8) && !data.is_empty() {
+            labels.push((rng.below(data.len() as u64) as usize, "stray".to_string()));
+        }
+        if rng.chance(1, 30) {
+            labels.push((data.len() + 1 + rng.below(4) as usize, "oob".to_string()));
+        }
+        let ls: Vec<String> = labels.iter().map(|(o, l)| format!("{}:{}", o, hexs(l))).collect();
+        lines.push(format!("c06.{:06} fa {} {} {} {}", n, f, e, hex(&data), if ls.is_empty() { "~".to_string() } else { ls.join(",") }));
+        n += 1;
+    }
+}
+
+/// Shift-JIS bytes of a sub-codec string (generator side only; the implementation under test uses
+/// encoding_rs through mila).
+fn encoding_sjis(s: &str) -> Vec<u8> {
+    let mut out = Vec::new();
+    for ch in s.chars() {
+        let c = ch as u32;
+        match c {
+            0..=0x7F => out.push(c as u8),
+            0xFF61..=0xFF9F => out.push((c - 0xFF61 + 0xA1) as u8),
+            0x3041..=0x3093 => {
+                out.push(0x82);
+                out.push((0x9F + (c - 0x3041)) as u8)
+            }
+            0x30A1..=0x30DF => {
+                out.push(0x83);
+                out.push((0x40 + (c - 0x30A1)) as u8)
+            }
+            0x30E0..=0x30F6 => {
+                out.push(0x83);
+                out.push((0x80 + (c - 0x30E0)) as u8)
+            }
+            _ => panic!("not in the sub-codec"),
+        }
+    }
+    out
+}
+
+const C07_KEYS: [&str; 3] = ["a", "b", "c"];
+const C07_MSGS: [&str; 4] = ["x", "\\n", "\n", "\\\\nn\\"];
+
+fn gen_c07(rng: &mut Rng, tier: &str, lines: &mut Vec<String>) {
+    let thorough = tier == "thorough";
+    let mut n = 0usize;
+    // --- bounded-exhaustive: every history of exactly `depth` calls over set(3 keys x 4 messages) and
+    // del(3 keys); the state after every call is printed, so all shorter histories are covered as prefixes.
+    let mut ops: Vec<String> = Vec::new();
+    for k in C07_KEYS {
+        for m in C07_MSGS {
+            ops.push(format!("set {} {}", hexs(k), hexs(m)));
+        }
+        ops.push(format!("del {}", hexs(k)));
+    }
+    let depth = if thorough { 5 } else { 4 };
+    let total = ops.len().pow(depth as u32);
+    for h in 0..total {
+        let id = format!("c07.{:07}", n);
+        n += 1;
+        lines.push(format!("{} new U L", id));
+        let mut x = h;
+        for _ in 0..depth {
+            lines.push(format!("{} {}", id, ops[x % ops.len()]));
+            x /= ops.len();
+        }
+    }
+    // quick: a random sample of the depth-5 histories on top of all depth-4 ones
+    if !thorough {
+        for _ in 0..3000 {
+            let id = format!("c07.{:07}", n);
+            n += 1;
+            lines.push(format!("{} new {} {}", id, rng.pick(&["U", "S"]), rng.pick(&["L", "B"])));
+            for _ in 0..5 {
+                lines.push(format!("{} {}", id, rng.pick(&ops)));
+            }
+        }
+    }
+    // --- random long histories over a 5-key pool, messages over {'\\','n','\n','x'}
+    let keys = ["a", "b", "c", "MID_キー", ""];
+    let alpha = ['\\', 'n', '\n', 'x'];
+    let count = if thorough { 4000 } else { 300 };
+    for _ in 0..count {
+        let id = format!("c07.{:07}", n);
+        n += 1;
+        lines.push(format!("{} new {} {}", id, rng.pick(&["U", "S"]), rng.pick(&["L", "B"])));
+        let len = rng.range(1, 60);
+        let nk = rng.range(1, 5) as usize;
+        for _ in 0..len {
+            let k = hexs(keys[rng.below(nk as u64) as usize]);
+            let l = match rng.below(20) {
+                0..=8 => {
+                    let ml = rng.range(0, 6);
+                    let m: String = (0..ml).map(|_| *rng.pick(&alpha)).collect();
+                    format!("set {} {}", k, hexs(&m))
+                }
+                9..=12 => format!("del {}", k),
+                13..=14 => format!("get {}", k),
+                15 => format!("has {}", k),
+                16..=18 => format!("setget {}", k),
+                _ => {
+                    let tl = rng.range(0, 4);
+                    let t: String = (0..tl).map(|_| *rng.pick(&alpha)).collect();
+                    format!("title {}", hexs(&t))
+                }
+            };
+            lines.push(format!("{} {}", id, l));
+        }
+    }
+    // --- the dirty flag of a *parsed* archive: serialize + from_bytes, judged on `dirty` only
+    let combos = [("S", "L"), ("S", "B"), ("U", "L"), ("U", "B")];
+    for i in 0..(if thorough { 400 } else { 60 }) {
+        let (f, e) = combos[i % 4];
+        let ne = rng.range(1, 4) as usize;
+        let keys = distinct_keys(rng, ne);
+        let entries: Vec<String> = keys
+            .iter()
+            .map(|k| {
+                let len = rng.range(0, 5) as usize;
+                format!("{}:{}", hexs(k), hexs(&sjis_string(rng, len)))
+            })
+            .collect();
+        lines.push(format!("c07.{:07} rtd {} {} {} {}", n, f, e, hexs(&sjis_string(rng, 2)), if entries.is_empty() { "~".to_string() } else { entries.join(",") }));
+        n += 1;
+    }
+}
+
+/// Which property's sub-stream to generate.  The family serves two properties; the orchestrator
+/// passes no property id to `gen`, so it is taken from `VERIF_PROP` when set, else from the output
+/// path the orchestrator uses (`work/<ID>/...`); with neither, both sub-streams are generated.
+fn wanted() -> (bool, bool) {
+    let hint = std::env::var("VERIF_PROP").ok().or_else(|| std::env::args().nth(5)).unwrap_or_default();
+    let c06 = hint.contains("C06");
+    let c07 = hint.contains("C07");
+    if c06 == c07 {
+        (true, true)
+    } else {
+        (c06, c07)
+    }
+}
+
+pub fn gen(seed: u64, tier: &str) -> Vec<String> {
+    let (c06, c07) = wanted();
+    let mut lines = Vec::new();
+    if c06 {
+        let mut rng = Rng::new(seed ^ 0xC06);
+        gen_c06(&mut rng, tier, &mut lines);
+    }
+    if c07 {
+        let mut rng = Rng::new(seed ^ 0xC07);
+        gen_c07(&mut rng, tier, &mut lines);
+    }
+    lines
 }
